@@ -59,9 +59,17 @@ def kind_sx(c):
     raise ValueError(k)
 
 
+def ticks(seconds):
+    """seconds (int or float, as default_timeout / max_timeout may be) -> clock ticks of 1/1024 s; the generators only
+    use values that are exact in ticks"""
+    t = seconds * TICKS
+    assert t == int(t), f"{seconds!r} s is not a whole number of ticks"
+    return int(t)
+
+
 def case_sx(c, variants=(0, 0, 0, 0, 0, 0)):
     return [c["content"], c["chunks"], c["netascii"], [[a, b] for a, b in c["options"]],
-            [c["max_bs"], c["max_tmo"], c["default_tmo"]], c["retries"],
+            [c["max_bs"], ticks(c["max_tmo"]), ticks(c["default_tmo"])], c["retries"],
             -1 if c["wrap"] is None else c["wrap"], kind_sx(c),
             [[t, a, d] for (t, a, d) in c["events"]], c.get("proc", 0), (list(variants) + [0] * 6)[:6]]
 
